@@ -1,6 +1,6 @@
 (* Props/C06.v - Prepared-statement parameters are bound as data, never as SQL. *)
 From Coq Require Import List NArith ZArith Lia Bool.
-From MM Require Import Lib.Bytes Model.Placeholders Model.Parse Proofs.PlaceholderProofs Proofs.ParseProofs Gen.FactsPackets Gen.FactsConn Gen.FactsCharset.
+From MM Require Import Lib.Bytes Model.Placeholders Model.Parse Proofs.PlaceholderProofs Proofs.ParseProofs Model.Exec Model.Stmts Proofs.StmtProofs Gen.FactsPackets Gen.FactsConn Gen.FactsCharset Gen.FactsControl.
 Import ListNotations.
 Open Scope N_scope.
 
@@ -14,7 +14,12 @@ Theorem c06_source_shape :
   connection_connection_handle_stmt_prepare_ok = true /\ connection_connection_handle_stmt_reset_ok = true /\
   types_fixed_width_ok = true /\ types_read_uint_len_ok = true /\ types_read_str_len_ok = true /\
   packets_read_params_ok = true /\ packets_read_param_value_ok = true /\ packets_parse_com_stmt_execute_ok = true /\
-  packets_interpolate_params_ok = true.
+  packets_interpolate_params_ok = true /\
+  (* the statement table of Model/Stmts.v: where it is created, the id counter, the small parsers of its commands *)
+  connection_connection_init___ok = true /\ utils_seq_ok = true /\ connection_connection_handle_stmt_close_ok = true /\
+  connection_connection_get_stmt_ok = true /\ packets_parse_com_stmt_reset_ok = true /\ packets_parse_com_stmt_close_ok = true /\
+  packets_read_cursor_flags_ok = true /\ packets_read_param_type_ok = true /\ packets_parse_com_stmt_send_long_data_ok = true /\
+  packets_make_com_stmt_prepare_ok_ok = true.
 Proof. repeat split; reflexivity. Qed.
 
 (* the one-pass scanner recognises exactly the positions of the placeholder regex:
@@ -62,3 +67,49 @@ Example c06_wf_nonvacuous : forallb wf_param
    mk_param [] 8 true (PInt 18446744073709551615); mk_param [] 253 false (PStr [39; 92]); mk_param [] 6 false PNull;
    mk_param [] 3 false PNull; mk_param [] 5 false (PF64 [0;0;0;0;0;0;240;63])] = true.
 Proof. vm_compute. reflexivity. Qed.
+
+(* ---- over whole histories of one connection (Model/Stmts.v: the statement table with its long-data buffers) ---------------- *)
+
+(* Any history of fewer than 2^32 prepared-statement commands on a fresh connection; somewhere in it a command that uses
+   up the long data of statement id - its PREPARE, a successful EXECUTE (whatever the application then answers: the
+   buffers are dropped before it is called), a RESET -; after it any commands that do not address id except by sending
+   long data.  Then the statement is there and its buffers hold exactly what those long-data commands sent for it, per
+   parameter, in order of arrival: nothing from before the consuming command, nothing that was sent for another statement. *)
+Theorem c06_long_data_since_last_use : forall qa ftab pre o mid id,
+  N.of_nat (length (pre ++ o :: mid)) < SEQ_SIZE ->
+  let s1 := fst (srun qa ftab store0 pre) in
+  consumes id o (snd (sstep qa ftab s1 o)) = true ->
+  forallb (quiet id) mid = true ->
+  exists st, lookup (fst (srun qa ftab (fst (sstep qa ftab s1 o)) mid)) id = Some st /\ st_buffers st = collect id mid.
+Proof. exact long_data_since_last_use. Qed.
+
+(* ... and the next execution binds, for every parameter that has long data, exactly that data (or NULL when the client
+   flags the parameter as NULL) - never the inline bytes, never part of them *)
+Theorem c06_execute_binds_long_data : forall qa lk d st ex, parse_com_stmt_execute qa lk d = Ok (st, ex) ->
+  forall j name v x, nth_error (ex_params ex) j = Some (name, v) -> assoc_N (N.of_nat j) (st_buffers st) = Some x ->
+  v = PNull \/ v = PStr x.
+Proof. exact execute_binds_long_data. Qed.
+
+(* what is done to one statement leaves every other statement as it is: text, parameter count, long data *)
+Theorem c06_other_statements_untouched : forall qa ftab s o j st, inv s -> lookup s j = Some st ->
+  quiet j o = true -> collect1 j (st_buffers st) o = st_buffers st ->
+  lookup (fst (sstep qa ftab s o)) j = Some st.
+Proof. exact other_statements_untouched. Qed.
+
+Theorem c06_closed_is_unknown : forall qa ftab s d id, parse_stmt_id d = Ok id ->
+  lookup (fst (sstep qa ftab s (SClose d))) id = None.
+Proof. exact closed_is_unknown. Qed.
+
+(* a concrete history: prepare "S?" (id 0), long data "ab" for parameter 0, an execution (binds 'ab', consumes it), then
+   long data "cd" for it, long data for an unknown statement and a second PREPARE: the hypotheses hold, the application was
+   called with S'ab', and the buffers of statement 0 hold "cd" only *)
+Example c06_history_nonvacuous :
+  let pre := [SPrepare [83; 63]; SLongData [0;0;0;0; 0;0; 97; 98]] in
+  let o := SExecute [0;0;0;0; 0; 1;0;0;0; 0; 1; 253;0] in
+  let mid := [SLongData [0;0;0;0; 0;0; 99]; SLongData [9;0;0;0; 0;0; 120]; SPrepare [83]; SLongData [0;0;0;0; 0;0; 100]] in
+  let s1 := fst (srun false [] store0 pre) in
+  consumes 0 o (snd (sstep false [] s1 o)) = true /\ forallb (quiet 0) mid = true /\
+  snd (sstep false [] s1 o) = RExec [83; 39; 97; 98; 39] [] false /\
+  collect 0 mid = [(0, [99; 100])] /\
+  option_map st_buffers (lookup (fst (srun false [] (fst (sstep false [] s1 o)) mid)) 0) = Some [(0, [99; 100])].
+Proof. vm_compute. repeat split; reflexivity. Qed.
